@@ -29,7 +29,7 @@ pub fn culprit_feature(p: &Program) -> String {
 impl Prop for C06 {
   type Case = Case;
   const ID: &'static str = "C06";
-  fn budget(t: Tier) -> u32 { t.pick(4_000, 60_000) }
+  fn budget(t: Tier) -> u32 { t.pick(10_000, 120_000) }
   fn strategy(_t: Tier, k: &Known) -> BoxedStrategy<Case> {
     // exclusion switch: tuple values make compile() overflow the stack (listed finding) — the non-core half of the generator then draws
     // tuples rarely, by remapping that choice
@@ -81,7 +81,7 @@ fn check(c: &Case) -> Verdict {
   for f in &p.features { v.label(format!("feature:{}", f)); }
   let (bytes, r1, names) = match compile_program(&src) {
     Stage::Discard(why) => { v.discard(format!("interpret rejected: {}", why.chars().take(40).collect::<String>())); return v; }
-    Stage::CompilePanic(m) => { v.fail(format!("C06|compile-panic|{}", feat), format!("compile() panicked: {}\n{}", m, src)); return v; }
+    Stage::CompilePanic(m) => { v.fail(format!("C06|compile-panic|{}", panic_key(&m)), format!("compile() panicked: {} (program features: {})\n{}", m, feat, src)); return v; }
     Stage::CompileErr(k) => {
       v.label(format!("compile-error:{}", k));
       if p.core { v.fail(format!("C06|core-compile-rejected|{}|{}", feat, k), format!("core-class program failed to compile: {}\n{}", k, src)); }
@@ -98,7 +98,7 @@ fn check(c: &Case) -> Verdict {
   let run = catch_unwind(AssertUnwindSafe(|| fresh.run_program(&prog)));
   let mut kinds = names.clone(); kinds.sort(); kinds.dedup();
   match run {
-    Err(e) => { v.fail(format!("C06|run-panic|{}", feat), format!("run_program panicked: {}\n{}", panic_msg(e), src)); }
+    Err(e) => { let m = panic_msg(e); v.fail(format!("C06|run-panic|{}", panic_key(&m)), format!("run_program panicked: {} (program features: {})\n{}", m, feat, src)); }
     Ok(Err(e)) => {
       v.label(format!("run-error:{}", e.kind_name()));
       if p.core && std::env::var("C06_LEARN").is_ok() { v.label(format!("unregistered:{}|{}", e.kind_name(), culprit_steps(&p, &e.kind_message()))); return v; }
@@ -118,6 +118,14 @@ fn check(c: &Case) -> Verdict {
     }
   }
   v
+}
+
+/// a panic is keyed by its message with numbers removed: that names the panic site (the root cause), not the program that reached it
+fn panic_key(m: &str) -> String {
+  let t: String = m.chars().map(|c| if c.is_ascii_digit() { '#' } else { c }).collect();
+  let mut out = String::new(); let mut prev = ' ';
+  for c in t.chars() { if c == '#' && prev == '#' { continue; } out.push(c); prev = c; }
+  out.chars().take(72).collect()
 }
 
 /// Name of the plan step whose emitted function id is the one the fresh interpreter does not know.
